@@ -465,7 +465,7 @@ Group:
             for k in info.keys():
                 value = info[k]
 
-                if os.path.isfile(value) or os.path.isdir(value):
+                if os.path.isabs(value) and (os.path.isfile(value) or os.path.isdir(value)):
                     if trimDir and eups.utils.isSubpath(value, trimDir):
                         value = os.path.realpath(value)
                         if trimDir == value:
